@@ -5,6 +5,7 @@ import RsMatterVerif.Model.Codec.PlainHdr
 import RsMatterVerif.Model.Codec.ProtoHdr
 import RsMatterVerif.Model.Codec.StatusReport
 import Driver.C17More
+import Driver.C17Discovery
 import Driver.Util
 /-!
 Driver for C17. One case = one codec (`case <id> <codec>`); every op line is self-contained:
@@ -302,6 +303,8 @@ def step (st : St) (line : String) : St × String :=
     | "status" => (st, stepStatus ws out)
     | "rbuf" => stepRbuf st ws out
     | "wbuf" => stepWbuf st ws out
+    | "adv" => (st, Driver.C17Discovery.stepAdv ws out)   -- D16b: AdvData + RecoveryAdvData, both modelled
+    | "mdns2" => (st, Driver.C17Discovery.stepMdns ws out)  -- D16b: mDNS wire format, modelled
     | k =>
       match Driver.C17More.step k ws out with
       | some r => (st, r)
